@@ -44,11 +44,21 @@ example : getSpansFor2FieldsBySpans [0, 1, 3, 4] [0, 2, 4] = .ok [0, 1, 2, 3, 4]
 /-- the error branch is real: span arrays over different row counts read `span1` past its end -/
 example : getSpansFor2FieldsBySpans [0, 5] [0, 2] = .error (.oob "span1[j]") := rfl
 
-/-- `Session.get_spans(fields=(f0, f1))` for two valid Fields of equal row count -/
-theorem no_oob_session_get_spans_fields (c0 c1 : Column) (h0 : c0.Valid) (h1 : c1.Valid)
-    (hl : c0.rows.length = c1.rows.length) (site : String) :
-    sessionGetSpansFields .repaired [c0, c1] ≠ .error (.oob site) :=
-  ne_oob_of_ok (C08.session_get_spans_fields_eq_spec_partial [c0, c1] c0 c1 rfl h0 h1 hl) site
+/-- `Session.get_spans(fields=…)` for any number ≥ 1 of valid Fields of equal row count (since fix NC08d all fields are
+    folded through `_get_spans_for_2_fields_by_spans`) -/
+theorem no_oob_session_get_spans_fields (c0 : Column) (cs : List Column) (hv : ∀ c ∈ c0 :: cs, c.Valid)
+    (hl : ∀ c ∈ cs, c.rows.length = c0.rows.length) (site : String) :
+    sessionGetSpansFields .repaired (c0 :: cs) ≠ .error (.oob site) :=
+  ne_oob_of_ok (C08.session_get_spans_fields_eq_spec c0 cs hv hl) site
+
+/-- the same for ndarray arguments of equal length -/
+theorem no_oob_session_get_spans_arrays (a0 : List Int) (as : List (List Int)) (hl : ∀ a ∈ as, a.length = a0.length)
+    (site : String) : sessionGetSpansArrays .repaired (a0 :: as) ≠ .error (.oob site) :=
+  ne_oob_of_ok (C08.session_get_spans_arrays_eq_spec a0 as hl) site
+
+example : sessionGetSpansFields .repaired
+    [.numeric [1, 1, 2, 2], .fixed [[97], [97], [98], [98]], .indexed [0, 1, 2, 3, 5] [120, 121, 121, 122, 122]] =
+    .ok [0, 1, 2, 3, 4] := rfl
 
 /-! ## apply_spans_* -/
 
